@@ -24,7 +24,7 @@ CONSTRUCTORS = {   # constructor -> {field: argument index (after ctx)}
     "sexp_make_complex": {"real": 1, "imag": 2},
 }
 FRESH_CALLS = {"sexp_make_bignum", "sexp_fixnum_to_bignum", "sexp_double_to_bignum", "sexp_make_flonum", "sexp_alloc_tagged_aux",
-               "sexp_make_ratio", "sexp_make_complex", "sexp_complex_copy", "sexp_make_integer", "sexp_make_unsigned_integer"}
+               "sexp_make_ratio", "sexp_make_complex", "sexp_make_integer", "sexp_make_unsigned_integer"}
 IN_PLACE_FIELDS = (["value", "bignum", "sign"], ["value", "flonum"])
 
 
@@ -51,10 +51,12 @@ class Summaries:
                 v = nd["d"]
                 defs = [(d, rhs, enclosing_elem(fn, d, pos)) for (d, rhs) in local_defs(fn, v)]
                 if v in fn.params:
-                    # the parameter itself, unless it is always overwritten before this point
+                    # the parameter itself, unless it is always overwritten before this point - or the tag tests
+                    # that hold at this return leave only kinds that have nothing to modify in place (fixnums, ...)
                     kills = set(p for (_d, _r, p) in defs if p)
                     if at is None or not kills or reach_without(fn, (fn.entry, -1), at, kills):
-                        out.add(fn.params.index(v))
+                        if not self.harmless_at(fn, v, n):
+                            out.add(fn.params.index(v))
                 if depth < 2 and at is not None:
                     for (d, rhs, pd) in defs:
                         if rhs is None or pd is None or fn.nodes[fn.strip(rhs)]["k"] not in ("ref", "cond"):
@@ -68,6 +70,106 @@ class Summaries:
         for i, nd in enumerate(fn.nodes):
             if nd["k"] == "ret" and nd.get("c"):
                 scan(nd["c"][0], enclosing_elem(fn, i, pos))
+        self.cache[key] = out
+        return out
+
+    def harmless_at(self, fn, v, ref_node):
+        """the kinds parameter v can have where ref_node is evaluated contain no number with in-place state
+        (flonum, bignum, ratio, complex): handing it back shares nothing that could be modified"""
+        from kinds import KindModel, KindAnalysis
+        key = (fn.file, fn.name, v)
+        if not hasattr(self, "_ka"):
+            self._ka = {}
+            self._model = KindModel(self.prog)
+        m = self._model
+        if key not in self._ka:
+            ka = KindAnalysis(m, fn, {v: m.U})
+            for i, nd in enumerate(fn.nodes):
+                if nd["k"] == "ret" and nd.get("c"):
+                    for x in fn.subtree(nd["c"][0]):
+                        if fn.nodes[x]["k"] == "ref" and fn.nodes[x].get("d") == v:
+                            ka.probes[i] = x
+            try:
+                ka.run()
+            except Exception:
+                ka.probe_results = {}
+            self._ka[key] = ka
+        ka = self._ka[key]
+        heavy = set()
+        for mem in ("flonum", "bignum", "ratio", "complex"):
+            heavy |= set(m.member_tags.get(mem, set()))
+        if self.only_called_with_complex_parts(fn, v):
+            # the real / imaginary part of a complex number is a real number, never a complex one
+            heavy -= set(m.member_tags.get("complex", set()))
+        for i, x in ka.probes.items():
+            if x == ref_node or ref_node in fn.subtree(fn.nodes[i]["c"][0]):
+                ks = ka.probe_results.get(i)
+                if ks is not None and not (ks & heavy):
+                    return True
+        return False
+
+    def only_called_with_complex_parts(self, fn, v):
+        """every call of fn in its unit passes `X->value.complex.real` or `.imag` for parameter v (and there is one)"""
+        key = ("parts", fn.file, fn.name, v)
+        if key in self.cache:
+            return self.cache[key]
+        k = fn.params.index(v)
+        n = 0
+        ok = True
+        for g in fn.unit.func_list:
+            if not g.blocks:
+                continue
+            for nd in g.nodes:
+                if nd["k"] == "call" and nd.get("o") == fn.name:
+                    args = nd["c"][1:]
+                    if k >= len(args):
+                        ok = False
+                        continue
+                    a = g.strip(args[k])
+                    if g.nodes[a]["k"] == "mem":
+                        _r, path = g.mempath(a)
+                        if path in (["value", "complex", "real"], ["value", "complex", "imag"]):
+                            n += 1
+                            continue
+                    ok = False
+        self.cache[key] = ok and n > 0
+        return self.cache[key]
+
+    def constructed(self, callee):
+        """callee returns an object it built with a constructor of CONSTRUCTORS: {field: origins of the field's
+        contents at the return, in the callee's own parameter space} - the constructor argument, or what the
+        callee stored into that field of the result afterwards (the last such store on the way to the return)"""
+        from cfg import local_defs
+        key = ("constructed", callee.file, callee.name)
+        if key in self.cache:
+            return self.cache[key]
+        self.cache[key] = None
+        rets = [callee.strip(nd["c"][0]) for nd in callee.nodes if nd["k"] == "ret" and nd.get("c")]
+        vs = {callee.nodes[r].get("d") for r in rets if callee.nodes[r]["k"] == "ref"}
+        if len(rets) == 0 or len(vs) != 1 or None in vs or any(callee.nodes[r]["k"] != "ref" for r in rets):
+            return None
+        v = next(iter(vs))
+        defs = [rhs for (_d, rhs) in local_defs(callee, v) if rhs is not None and callee.const_val(rhs) is None]
+        if len(defs) != 1:
+            return None
+        c = callee.strip(defs[0])
+        cn = callee.nodes[c]
+        if cn["k"] != "call" or cn.get("o") not in CONSTRUCTORS:
+            return None
+        args = cn["c"][1:]
+        out = {}
+        for fld, k in CONSTRUCTORS[cn["o"]].items():
+            if k < len(args):
+                out[fld] = set(self.expr(callee, args[k], 1, set()))
+        # stores res->value.X.fld = rhs : unconditional stores replace, conditional ones add
+        for nd in callee.nodes:
+            if nd["k"] == "bin" and nd["o"] == "=":
+                l = callee.strip(nd["c"][0])
+                if callee.nodes[l]["k"] == "mem":
+                    root, path = callee.mempath(l)
+                    r0 = callee.strip(root)
+                    if callee.nodes[r0]["k"] == "ref" and callee.nodes[r0].get("d") == v and len(path) == 3 and path[2] in out:
+                        out[path[2]] = set(self.expr(callee, nd["c"][1], 1, set()))
         self.cache[key] = out
         return out
 
@@ -319,6 +421,13 @@ def explore(prog, S, fn, site, obj):
     def origin_of(n, st):
         return frozenset(S.expr(fn, n, 0, set(), st))
 
+    def _constructed_of(fn_, call_node):
+        name = call_node.get("o")
+        g = prog.func(name, fn_.unit) if name else None
+        if g is None or not g.blocks or name in FRESH_CALLS or name in CONSTRUCTORS:
+            return None
+        return S.constructed(g)
+
     assigned_params = {}
     for nd in fn.nodes:
         if nd["k"] == "bin" and nd["o"] == "=":
@@ -344,6 +453,20 @@ def explore(prog, S, fn, site, obj):
                         k = CONSTRUCTORS[rn2["o"]][fld]
                         args = rn2["c"][1:]
                         st[t] = origin_of(args[k], st) if k < len(args) else frozenset({"unknown"})
+                    elif rn2["k"] == "call" and sub.count("->") == 1 and _constructed_of(fn, rn2) is not None \
+                            and fld in _constructed_of(fn, rn2):
+                        # a helper that returns an object it constructed: the field holds what the helper left there
+                        args = rn2["c"][1:]
+                        toks = set()
+                        for o in _constructed_of(fn, rn2)[fld]:
+                            if isinstance(o, tuple):
+                                # callee parameter index == argument index (ctx is parameter / argument 0)
+                                if 0 <= o[1] < len(args):
+                                    toks |= {(("in", x[1], "part") if isinstance(x, tuple) else x)
+                                             for x in origin_of(args[o[1]], st)}
+                            else:
+                                toks.add(o)
+                        st[t] = frozenset(toks or {"fresh"})
                     else:
                         st[t] = st[lt]
         return st
